@@ -210,23 +210,25 @@ def run(ctx):
         key_typing(ctx, facts, roles, key_adt, cfg, "K1")
 
         # ---------------- K2
-        helpers = [b for b in facts.fns() if b.kind == "fn" and len(items.get(b.key, {}).get("inputs", [])) == 2 and items[b.key]["inputs"][1] == "i64" and items[b.key]["inputs"][0].startswith("&[") and items[b.key]["output"].startswith("std::option::Option<&")]
-        ctx.check(len(helpers) == 1, "K2.one-helper", "one negative-index helper (slice, i64) → Option (%s)" % cfg, "%d index helpers" % len(helpers), where=lookup.where(), nontrivial=True)
-        if len(helpers) != 1:
-            continue
-        helper = helpers[0]
-        lu = Unit(roles, lookup.key, extended=True, stop=[helper.key])
-        sites = lu.calls_to(helper.key)
-        ctx.floor("index helper call sites (%s)" % cfg, len(sites), 1)
-        for s in sites:
-            ty = (callee_of(s.term).get("full") or "")
-            sl = strip_refs(s.body.xtrace(s.term["args"][0]))
-            if "::<char>" in ty:
-                good = expr_mentions(sl, lambda x: x[0] == "call" and x[1] and x[1]["path"].endswith("::collect") and expr_mentions(x, lambda y: y[0] == "call" and y[1] and y[1]["path"] == "core::str::<impl str>::chars"))
-                ctx.check(good, "K2.string-by-chars", "string indexed through Vec<char> from chars() (%s, %s)" % (s.where(), cfg), "the character slice handed to the helper is %s" % show_expr(sl)[:120], where=s.where(), fn=s.body.key, nontrivial=True)
-            else:
-                good = expr_mentions(sl, lambda x: x[0] == "downcast" and x[2] == "Array")
-                ctx.check(good, "K2.array-payload", "array indexed on its own payload (%s, %s)" % (s.where(), cfg), "the slice handed to the helper is %s" % show_expr(sl)[:120], where=s.where(), fn=s.body.key, nontrivial=True)
+        # the index helper(s), by role: the functions (…, i64) → Option in the lookup's reach that perform a positional
+        # access themselves (whatever the sequence type: slice, Vec, any DoubleEndedIterator)
+        reach = Unit(roles, lookup.key, extended=True)
+        helpers = []
+        for b in reach.bodies:
+            ins = items.get(b.key, {}).get("inputs", [])
+            if b.kind == "fn" and b.key != lookup.key and len(ins) == 2 and ins.count("i64") == 1 and items[b.key].get("output", "").startswith("std::option::Option<"):
+                if any(DIRECT_INDEX.search(callee_path(t) or "") for bb in roles.unit(b.key) for _, t in bb.calls()):
+                    helpers.append(b)
+        ctx.check(len(helpers) == 1, "K2.one-helper", "one negative-index helper (sequence, i64) → Option (%s)" % cfg, "%d index helpers%s" % (len(helpers), (": " + ", ".join(h.key.split("::", 1)[1] for h in helpers)) if helpers else ""), where=lookup.where(), nontrivial=True)
+        helper = helpers[0] if len(helpers) == 1 else None
+        lu = Unit(roles, lookup.key, extended=True, stop=[h.key for h in helpers])
+        if helper is not None:
+            IDXP = items[helper.key]["inputs"].index("i64") + 1
+            SEQP = 3 - IDXP
+            sites = lu.calls_to(helper.key)
+            ctx.floor("index helper call sites (%s)" % cfg, len(sites), 1)
+            for s in sites:
+                index_site(ctx, s, SEQP, cfg)
         for s in lu.calls(lambda c: not c["local"]):
             p = callee_path(s.term)
             if BYTE_OPS.search(p):
@@ -236,59 +238,8 @@ def run(ctx):
             if MAP_ITER.search(p):
                 ctx.fail("K5.no-entry-scan", "%s|%s" % (s.body.key.split("::", 1)[1], p.rsplit("::", 1)[1]), "the lookup uses %s: parts of the data not named by the path can influence the result" % p, where=s.where(), fn=s.body.key)
         ctx.ok("K2.scan", "lookup reach scanned for byte operations / direct indexing / entry scans (%d bodies, %s)" % (len(lu.bodies), cfg), nontrivial=True, sample={"bodies": sorted(b.key for b in lu.bodies)})
-        # helper internals, read off its decision cases (rules/optnorm.py): whatever the spelling (`?`, and_then, match,
-        # named booleans), every case either yields nothing or reads the slice it measured at
-        #     |idx|                 when idx >= 0
-        #     len(slice) - |idx|    when idx <  0   (checked: nothing when that would be negative)
-        from . import optnorm, pathsum
-        hc = optnorm.decision_cases(facts, helper)
-        if hc is None:
-            ctx.unread("K2.helper-branches", "index helper (%s)" % cfg, "the index helper has loops or too many paths to summarise", where=helper.where(), fn=helper.key)
-        else:
-            bad, forms = [], set()
-
-            def mentions_call(e, rx):
-                return expr_mentions(e, lambda y: y[0] == "call" and y[1] is not None and re.search(rx, y[1]["path"]) is not None)
-
-            def expand(e, depth=0):
-                """payload placeholders → the expression they are the payload of (so that |idx| and len - |idx| show)."""
-                if not isinstance(e, tuple) or depth > 12:
-                    return e
-                if e[0] == "payload":
-                    return ("payload", e[1], expand(e[2], depth + 1))
-                return tuple([expand(y, depth + 1) if isinstance(y, tuple) else y for y in x] if isinstance(x, list) else (expand(x, depth + 1) if isinstance(x, tuple) else x) for x in e)
-            for conds, v, pth in hc:
-                sign = None
-                for k, val in conds.items():
-                    if k[0] == "cmp" and k[1] == "Lt" and k[2] == "(arg 2)" and k[3] == "c:0":
-                        sign = "neg" if val else "nonneg"
-                    elif k[0] == "cmp" and k[1] == "Lt" and k[2] == "c:-1" and k[3] == "(arg 2)":
-                        sign = "nonneg" if val else "neg"         # -1 < idx
-                    elif k[0] == "cmp" and "(arg 2)" in (k[2], k[3]):
-                        sign = "wrong:%s" % (k,)
-                    elif k[0] == "pure" and "is_negative" in k[1] and "(arg 2)" in k[1]:
-                        sign = "neg" if val else "nonneg"
-                v = strip_refs(v)
-                if (v[0] == "call" and v[1] and "from_residual" in v[1]["path"]) or (v[0] == "agg" and v[1].get("variant") == "None"):
-                    continue
-                if v[0] == "agg" and v[1].get("variant") == "Some" and v[2]:
-                    v = strip_refs(v[2][0])
-                if not (v[0] == "call" and v[1] and re.search(r"^core::slice::<impl \[T\]>::get$|Index<", v[1]["path"]) and strip_refs(v[2][0]) == ("arg", 1)) and not (v[0] == "payload" and mentions_call(v[2], r"^core::slice::<impl \[T\]>::get$")):
-                    bad.append("%s: returns %s" % (sign, show_expr(v)[:70]))
-                    continue
-                idx = expand(v[2][1] if v[0] == "call" else v[2])
-                has_abs = mentions_call(idx, r"<impl i64>::(unsigned_abs|abs)$")
-                has_sub = mentions_call(idx, r"<impl usize>::(checked_sub|saturating_sub|wrapping_sub)$") or expr_mentions(idx, lambda y: y[0] == "binop" and str(y[1]).startswith("Sub"))
-                sub_of_len = expr_mentions(idx, lambda y: y[0] == "call" and y[1] is not None and y[1]["path"] == "core::slice::<impl [T]>::len" and strip_refs(y[2][0]) == ("arg", 1))
-                if sign == "nonneg" and has_abs and not has_sub:
-                    forms.add("nonneg")
-                elif sign == "neg" and has_abs and has_sub and sub_of_len:
-                    forms.add("neg")
-                else:
-                    bad.append("under %s the slice is read at %s" % (sign, show_expr(idx)[:90]))
-            ctx.check(not bad and forms == {"nonneg", "neg"}, "K2.helper-branches", "idx >= 0 reads at |idx|, idx < 0 reads at len - |idx| — on every case of the helper (%s)" % cfg,
-                      "; ".join(bad[:3]) if bad else "the helper has no case for %s indexes" % sorted({"nonneg", "neg"} - forms), where=helper.where(), fn=helper.key, nontrivial=True,
-                      sample={"cases": len(hc), "forms": sorted(forms)})
+        if helper is not None:
+            helper_table(ctx, facts, helper, SEQP, IDXP, cfg)
 
         # ---------------- K3 / K4 on var
         vb, ve = roles.fn_of("var")
@@ -369,7 +320,7 @@ def run(ctx):
             for bi, t in b.calls():
                 if callee_path(t) == CLONE:
                     a = strip_refs(b.trace(t["args"][0]))
-                    if a == ("arg", 1) and items.get(b.key, {}).get("inputs", [""])[0] == "&serde_json::Value":
+                    if a[0] == "arg" and a[1] - 1 < len(items.get(b.key, {}).get("inputs", [])) and items[b.key]["inputs"][a[1] - 1] == "&serde_json::Value":
                         whole.append((b.key, bi))
         ctx.check(len(whole) >= 3, "K3.whole-data", "operand-less var, the null key and the empty string return a clone of the entire data (%s)" % cfg, "only %d whole-data clone sites (%s)" % (len(whole), whole), where=vb.where(), fn=vb.key, nontrivial=True,
                   sample={"sites": whole})
@@ -377,7 +328,7 @@ def run(ctx):
         blocks, dec = lookup.specialize(lambda e, a: "Null" if a == key_adt else None)
         with lookup.restricted(blocks):
             r = strip_refs(lookup.trace(0))
-        good = r[0] == "agg" and r[1].get("variant") == "Some" and strip_refs(r[2][0])[0] == "call" and strip_refs(r[2][0])[1]["path"] == CLONE and strip_refs(strip_refs(r[2][0])[2][0]) == ("arg", 1)
+        good = r[0] == "agg" and r[1].get("variant") == "Some" and strip_refs(r[2][0])[0] == "call" and strip_refs(r[2][0])[1]["path"] == CLONE and strip_refs(strip_refs(r[2][0])[2][0]) == DATA
         ctx.check(good, "K3.null-key", "a null key yields Some(entire data) (%s)" % cfg, "a null key yields %s" % show_expr(r)[:100], where=lookup.where(), fn=lookup.key, nontrivial=True)
         # K4
         _, s1res = P.analyse(roles)
@@ -388,40 +339,469 @@ def run(ctx):
             ctx.ok("K4.default-inert", "nothing in var or the lookup parses a value (%s)" % cfg, nontrivial=True)
 
         # ---------------- K5 the dotted-path walk
-        walkers = [b for b in lu.bodies if b.kind == "fn" and b.key != lookup.key and items.get(b.key, {}).get("output") == "std::option::Option<serde_json::Value>"]
+        # roles: the splitter is the (&str, char) → Vec<String> function in the lookup's reach, the walker the function
+        # that calls it
+        splitters = [b.key for b in lu.bodies if b.kind == "fn" and items.get(b.key, {}).get("output") == "std::vec::Vec<std::string::String>" and sorted(items[b.key].get("inputs", [])) == ["&str", "char"]]
+        walkers = [b for b in lu.bodies if b.kind == "fn" and b.key != lookup.key and any(callee_of(t) and callee_of(t).get("key") in splitters for bb in roles.unit(b.key) for _, t in bb.calls())]
+        if not splitters:
+            walkers = [b for b in lu.bodies if b.kind == "fn" and b.key != lookup.key and items.get(b.key, {}).get("output") == "std::option::Option<serde_json::Value>"]
         ctx.check(len(walkers) == 1, "K5.walker", "one dotted-path walker (%s)" % cfg, "%d candidates" % len(walkers), where=lookup.where())
         if len(walkers) == 1:
-            w = walkers[0]
-            r = strip_refs(w.trace(0))
-            cands = [strip_refs(x) for x in r[2]] if r[0] == "phi" else [r]
-            kinds = []
-            fold = None
-            for c in cands:
-                if c[0] == "agg" and c[1].get("variant") == "None":
-                    kinds.append("None")
-                elif c[0] == "agg" and c[1].get("variant") == "Some" and strip_refs(c[2][0])[0] == "call" and strip_refs(c[2][0])[1]["path"] == CLONE:
-                    kinds.append("Some(data)")
-                elif c[0] == "call" and c[1] and re.search(r"Iterator(>)?::(fold|try_fold)$", c[1]["path"]):
-                    kinds.append("fold")
-                    fold = c
-                else:
-                    kinds.append("other:" + show_expr(c)[:60])
-            if fold is None:
-                lf = walker_loop_form(ctx, facts, roles, w, helper, cfg)
-                if lf:
-                    continue
-            ctx.check(sorted(kinds) == ["None", "Some(data)", "fold"], "K5.walk-is-the-result", "the walker returns the entire data (empty key), None (scalar data) or exactly the fold over the segments (%s)" % cfg,
-                      "the walker's results are %s — a lookup that failed along the path must stay absent (no fallback)" % kinds, where=w.where(), fn=w.key, nontrivial=True, sample={"results": kinds})
-            if fold is not None:
-                it = fold[2][0]
-                split = expr_mentions(it, lambda x: x[0] == "call" and x[1] and x[1]["local"] and items.get(x[1]["key"], {}).get("output") == "std::vec::Vec<std::string::String>")
-                ctx.check(split, "K5.split", "segments come from the escape-aware splitter (%s)" % cfg, "the fold iterates %s" % show_expr(it)[:100], where=w.where(), fn=w.key)
-                split_transducer(ctx, facts, w, it, cfg)
-                seed = strip_refs(fold[2][1])
-                ctx.check(seed[0] == "agg" and seed[1].get("variant") == "Some", "K5.seed", "the walk starts at the entire data (%s)" % cfg, "fold seed %s" % show_expr(seed)[:80], where=w.where(), fn=w.key)
-                clos = strip_refs(fold[2][2])
-                if clos[0] == "agg" and clos[1].get("agg") == "Closure":
-                    step_matrix(ctx, facts, roles, facts.body(clos[1]["closure"]), helper, cfg)
+            walk(ctx, facts, roles, walkers[0], helper, cfg)
+
+
+def walk(ctx, facts, roles, w, helper, cfg):
+    """K5 on the walker: its answer is the entire data (empty key), nothing, or the accumulation over the splitter's
+    segments — a fold, or a loop with a carried value — and nothing after it; every step is read as a table."""
+    items = facts.items
+    r = strip_refs(w.trace(0))
+    cands = [strip_refs(x) for x in r[2]] if r[0] == "phi" else [r]
+    kinds = []
+    fold = None
+    for c in cands:
+        if c[0] == "agg" and c[1].get("variant") == "None":
+            kinds.append("None")
+        elif c[0] == "agg" and c[1].get("variant") == "Some" and strip_refs(c[2][0])[0] == "call" and strip_refs(c[2][0])[1]["path"] == CLONE:
+            kinds.append("Some(data)")
+        elif c[0] == "call" and c[1] and re.search(r"Iterator(>)?::(fold|try_fold)$", c[1]["path"]):
+            kinds.append("fold")
+            fold = c
+        else:
+            kinds.append("other:" + show_expr(c)[:60])
+    if fold is None:
+        if walker_loop_step(ctx, facts, roles, w, helper, cfg):
+            return
+        if walker_loop_form(ctx, facts, roles, w, helper, cfg):
+            return
+    ctx.check(sorted(kinds) == ["None", "Some(data)", "fold"], "K5.walk-is-the-result", "the walker returns the entire data (empty key), None (scalar data) or exactly the fold over the segments (%s)" % cfg,
+              "the walker's results are %s — a lookup that failed along the path must stay absent (no fallback)" % kinds, where=w.where(), fn=w.key, nontrivial=True, sample={"results": kinds})
+    if fold is not None:
+        it = fold[2][0]
+        split = expr_mentions(it, lambda x: x[0] == "call" and x[1] and x[1]["local"] and items.get(x[1]["key"], {}).get("output") == "std::vec::Vec<std::string::String>")
+        ctx.check(split, "K5.split", "segments come from the escape-aware splitter (%s)" % cfg, "the fold iterates %s" % show_expr(it)[:100], where=w.where(), fn=w.key)
+        split_transducer(ctx, facts, w, it, cfg)
+        seed = strip_refs(fold[2][1])
+        ctx.check(seed[0] == "agg" and seed[1].get("variant") == "Some", "K5.seed", "the walk starts at the entire data (%s)" % cfg, "fold seed %s" % show_expr(seed)[:80], where=w.where(), fn=w.key)
+        clos = strip_refs(fold[2][2])
+        if clos[0] == "agg" and clos[1].get("agg") == "Closure":
+            step_table(ctx, facts, facts.body(clos[1]["closure"]), ("arg", 2), ("arg", 3), helper, cfg)
+        else:
+            ctx.unread("K5.step", "path step (%s)" % cfg, "the fold's step is %s, not a closure the rule can read" % show_expr(clos)[:80], where=w.where(), fn=w.key)
+
+
+MAP_GET = re.compile(r"^serde_json::Map::<.*>::get$")
+
+
+def step_table(ctx, facts, sb, CUR, SEG, helper, cfg):
+    """K5 — one step of the walk as a decision table (composed decision cases of the step function, helpers read
+    through).  Every case either yields nothing, or yields what exactly one access found:
+        Map::get(object payload of the current value, the segment)
+        index helper(array payload of the current value,            the segment parsed as i64)
+        index helper(chars() of the string payload of the current value, the segment parsed as i64)
+        index helper(a sequence built from a character,              the segment parsed as i64)
+    and all of the first three occur.  The kind of the current value is carried by the payload projection itself."""
+    key = "path step (%s)" % cfg
+    cases = composed_cases(facts, sb)
+    if cases is None:
+        ctx.unread("K5.step", key, "the step has loops or too many paths to summarise", where=sb.where(), fn=sb.key)
+        return
+    hk = helper.key if helper is not None else None
+    hins = facts.items[hk]["inputs"] if hk else []
+    idxp = hins.index("i64") if hk else 1
+    bad, unread, classes = [], [], {}
+
+    def is_access(y):
+        return y[0] == "call" and y[1] is not None and (MAP_GET.search(y[1]["path"]) is not None or (hk is not None and y[1].get("key") == hk))
+
+    def from_cur(e, variant):
+        """e reads the `variant` payload of (something that is) the current value."""
+        hit = []
+        expr_mentions(e, lambda y: hit.append(y) or False if (y[0] == "downcast" and y[2] == variant) else False)
+        return bool(hit) and all(expr_mentions(h[1], lambda z: z == CUR) for h in hit)
+
+    def seg_parsed(e):
+        x = _num_peel(e)
+        while x[0] == "call" and x[1] and re.search(r"Result::<.*>::(ok|unwrap_or\w*)$", x[1]["path"]):
+            x = _num_peel(x[2][0])
+        return x[0] == "call" and x[1] is not None and x[1]["path"] == "core::str::<impl str>::parse" and "i64" in (x[1].get("full") or "") and expr_mentions(x[2][0], lambda z: z == SEG) and not expr_mentions(x[2][0], lambda z: z[0] == "call" and z[1] is not None and not STR_PASS.search(z[1]["path"]))
+
+    for conds, v in cases:
+        v = strip_refs(v)
+        if (v[0] == "call" and v[1] and "from_residual" in v[1]["path"]) or (v[0] == "agg" and v[1].get("variant") == "None"):
+            continue
+        acc = {}
+        expr_mentions(v, lambda y: acc.setdefault(pathsum_canon(y), y) and False if is_access(y) else False)
+        if not acc:
+            if expr_mentions(v, lambda y: y[0] == "call" and y[1] is not None and y[1].get("local") and not _is_ctor(y[1])):
+                unread.append("a step yields %s" % show_expr(v)[:90])
+            else:
+                bad.append("a step yields %s without looking anything up in the current value" % show_expr(v)[:80])
+            continue
+        if len(acc) > 1:
+            unread.append("a step combines %d accesses: %s" % (len(acc), show_expr(v)[:80]))
+            continue
+        a = list(acc.values())[0]
+        if MAP_GET.search(a[1]["path"]):
+            if not from_cur(a[2][0], "Object"):
+                bad.append("Map::get is applied to %s, not to the object the walk stands on" % show_expr(strip_refs(a[2][0]))[:60])
+            elif not (expr_mentions(a[2][1], lambda z: z == SEG) and not expr_mentions(a[2][1], lambda z: z[0] == "call" and z[1] is not None and not STR_PASS.search(z[1]["path"]))):
+                bad.append("the object is asked for %s, not for the segment as it is" % show_expr(strip_refs(a[2][1]))[:60])
+            else:
+                classes.setdefault("object: Map::get(segment)", 0)
+                classes["object: Map::get(segment)"] += 1
+            continue
+        seq, idx = a[2][1 - idxp], a[2][idxp]
+        if not seg_parsed(idx):
+            bad.append("the index helper is asked for %s, not for the segment parsed as an integer" % show_expr(strip_refs(idx))[:70])
+            continue
+        has_str = expr_mentions(seq, lambda y: y[0] == "downcast" and y[2] == "String")
+        has_arr = expr_mentions(seq, lambda y: y[0] == "downcast" and y[2] == "Array")
+        if has_arr and not has_str:
+            if from_cur(seq, "Array"):
+                classes["array: index helper(parse i64)"] = classes.get("array: index helper(parse i64)", 0) + 1
+            else:
+                bad.append("the index helper reads %s, not the array the walk stands on" % show_expr(strip_refs(seq))[:60])
+        elif has_str and not has_arr:
+            chars = expr_mentions(seq, lambda y: y[0] == "call" and y[1] is not None and y[1]["path"] == "core::str::<impl str>::chars" and expr_mentions(y, lambda z: z[0] == "downcast" and z[2] == "String"))
+            if not from_cur(seq, "String"):
+                bad.append("the index helper reads %s, not the string the walk stands on" % show_expr(strip_refs(seq))[:60])
+            elif chars:
+                classes["string: index helper(chars, parse i64)"] = classes.get("string: index helper(chars, parse i64)", 0) + 1
+            else:
+                unread.append("a string is indexed as %s" % show_expr(strip_refs(seq))[:70])     # K2.string-by-chars judges the site
+        elif not has_str and not has_arr and expr_mentions(seq, lambda z: z == CUR):
+            classes["character: index helper(parse i64)"] = classes.get("character: index helper(parse i64)", 0) + 1
+        else:
+            unread.append("the index helper reads %s" % show_expr(strip_refs(seq))[:70])
+    want = ["object: Map::get(segment)", "array: index helper(parse i64)", "string: index helper(chars, parse i64)"]
+    if bad:
+        for m in sorted(set(bad))[:4]:
+            ctx.fail("K5.step", "path step|%s" % re.sub(r"[0-9]+", "", m)[:60], m, where=sb.where(), fn=sb.key)
+    elif unread:
+        ctx.unread("K5.step", key, "; ".join(unread[:2]), where=sb.where(), fn=sb.key)
+    else:
+        miss = [x for x in want if x not in classes]
+        ctx.check(not miss, "K5.step", "every step of the walk is one access to the current value with the segment, or nothing (%s)" % cfg, "the step has no case for %s" % miss, where=sb.where(), fn=sb.key, nontrivial=True,
+                  sample={"cases": len(cases), "accesses": classes})
+
+
+def pathsum_canon(e):
+    from . import pathsum
+    return pathsum.canon(e)
+
+
+def walker_loop_step(ctx, facts, roles, w, helper, cfg):
+    """The walk as a loop whose carried value (of whatever type) is replaced, per segment, by the answer of a step
+    function: `for seg in split(key) { cur = step(cur, seg)?; }`.  True when read and judged."""
+    from . import panic as PN
+    from . import pathsum
+    items = facts.items
+    loops = PN.loops_of(w)
+    if len(loops) != 1:
+        return False
+    h, bl, srcs = loops[0]
+    nbi = [bi for bi in sorted(bl) if w.blocks[bi]["term"]["k"] == "Call" and (callee_path(w.blocks[bi]["term"]) or "").endswith("::next")]
+    if len(nbi) != 1:
+        return False
+    it = w.trace(w.blocks[nbi[0]]["term"]["args"][0])
+    if not expr_mentions(it, lambda x: x[0] == "call" and x[1] and x[1]["local"] and items.get(x[1]["key"], {}).get("output") == "std::vec::Vec<std::string::String>"):
+        return False
+    DATA = None
+    for i, t in enumerate(items.get(w.key, {}).get("inputs", [])):
+        if t == "&serde_json::Value":
+            DATA = ("arg", i + 1)
+    found = None
+    for l, ds in w.defs().items():
+        if w.is_arg(l):
+            continue
+        inside = [d for d in ds if d[1] in bl and not d[-1]]
+        outside = [d for d in ds if d[1] not in bl and not d[-1]]
+        if len(inside) != 1 or len(outside) != 1:
+            continue
+        ex = strip_refs(w._trace_def(inside[0], 0, frozenset([l])))
+        src = payload_source(ex)
+        if src is ex or src[0] != "call" or not src[1] or not src[1].get("local") or _is_ctor(src[1]):
+            continue
+        curp = [i for i, a in enumerate(src[2]) if expr_mentions(a, lambda y: y == ("cycle", l) or (y[0] == "phi" and y[1] == l))]
+        segp = [i for i, a in enumerate(src[2]) if expr_mentions(a, lambda y: y[0] == "call" and y[1] and y[3] == nbi[0])]
+        if len(curp) == 1 and len(segp) == 1 and curp != segp and len(src[2]) == 2:
+            found = (l, outside[0], src, curp[0] + 1, segp[0] + 1)
+    if found is None:
+        return False
+    cur, seed_def, call, curp, segp = found
+    seed = strip_refs(w._trace_def(seed_def, 0, frozenset()))
+    seed_ok = DATA is not None and expr_mentions(seed, lambda y: y == DATA) and not expr_mentions(seed, lambda y: y[0] == "call" and y[1] is not None and y[1]["path"] != CLONE and not _is_ctor(y[1]))
+    ctx.check(seed_ok, "K5.seed", "the walk starts at the entire data (%s)" % cfg, "the walk's current value starts as %s" % show_expr(seed)[:80], where=w.where(), fn=w.key)
+    # every way out of the loop other than the exhaustion of the segments ends in "absent"
+    none_edges = set()
+    for sb_ in bl:
+        tt = w.blocks[sb_]["term"]
+        if tt["k"] == "SwitchInt":
+            e = w.trace(tt["discr"])
+            if e[0] == "discr" and strip_refs(e[1])[0] == "call" and strip_refs(e[1])[3] == nbi[0]:
+                r_ = switch_edges_for_variant(w, sb_, "None")
+                if r_:
+                    none_edges.add((sb_, r_[0]))
+    early = []
+    for u in sorted(bl):
+        for v in w.succs(u):
+            if v in bl or (u, v) in none_edges or w.blocks[v].get("cleanup"):
+                continue
+            pw = pathsum.Walker(w, start=v, max_paths=300)
+            for p_ in pw.paths:
+                rr = strip_refs(p_.result) if p_.result is not None else None
+                absent = rr is not None and ((rr[0] == "agg" and rr[1].get("variant") == "None") or (rr[0] == "call" and rr[1] is not None and "from_residual" in rr[1].get("path", "")))
+                if not absent and not p_.truncated:
+                    early.append(show_expr(rr)[:70] if rr is not None else "?")
+    ctx.check(not early, "K5.early-exit", "the walk is left before the segments are exhausted only with 'absent' (%s)" % cfg, "the loop over the segments is left early with %s: the remaining segments are never resolved" % early[:2], where=w.where(), fn=w.key, nontrivial=True)
+    # results
+    r = strip_refs(w.trace(0))
+    cands = [strip_refs(x) for x in r[2]] if r[0] == "phi" else [r]
+    kinds, badk = set(), []
+    hk = helper.key if helper is not None else None
+    for c in cands:
+        if (c[0] == "agg" and c[1].get("variant") == "None") or (c[0] == "call" and c[1] and "from_residual" in c[1]["path"]):
+            kinds.add("None")
+        elif c[0] == "agg" and c[1].get("variant") == "Some":
+            v = strip_refs(c[2][0])
+            if v[0] == "call" and v[1]["path"] == CLONE and strip_refs(v[2][0]) == DATA:
+                kinds.add("Some(data)")
+            elif expr_mentions(v, lambda y: y[0] == "phi" and y[1] == cur) and not expr_mentions(v, lambda y: y == DATA and False) and not expr_mentions(v, lambda y: y[0] == "call" and y[1] is not None and (MAP_GET.search(y[1]["path"]) is not None or y[1].get("key") == hk)):
+                kinds.add("Some(current)")
+                # a conversion of the final value: read it, every case must hand on (part of) what the walk ended on
+                if v[0] == "call" and v[1].get("local") and not _is_ctor(v[1]):
+                    fb = facts.body(v[1]["key"])
+                    cc = composed_cases(facts, fb) if fb is not None else None
+                    if cc is None:
+                        ctx.unread("K5.walk-is-the-result", "final conversion (%s)" % cfg, "the walk's final value goes through %s, which the rule cannot summarise" % v[1]["key"], where=w.where(), fn=w.key)
+                    else:
+                        for _, fv in cc:
+                            if not expr_mentions(fv, lambda y: y[0] == "arg"):
+                                badk.append("%s turns the walk's final value into %s" % (v[1]["key"].split("::", 1)[1], show_expr(fv)[:50]))
+            else:
+                badk.append(show_expr(v)[:60])
+        else:
+            badk.append(show_expr(c)[:60])
+    ctx.check(not badk and kinds == {"None", "Some(data)", "Some(current)"}, "K5.walk-is-the-result", "the walker returns the entire data (empty key), None (scalar data / absent step) or the value the loop over the segments ends on (%s)" % cfg,
+              "the walker's results are %s %s — a lookup that failed along the path must stay absent, nothing is looked up after the walk" % (sorted(kinds), badk[:2]), where=w.where(), fn=w.key, nontrivial=True)
+    ctx.ok("K5.split", "segments come from the escape-aware splitter (%s)" % cfg)
+    split_transducer(ctx, facts, w, it, cfg)
+    sb = facts.body(call[1]["key"])
+    if sb is None:
+        ctx.unread("K5.step", "path step (%s)" % cfg, "the step function %s has no body to read" % call[1]["key"], where=w.where(), fn=w.key)
+    else:
+        step_table(ctx, facts, sb, ("arg", curp), ("arg", segp), helper, cfg)
+    return True
+
+
+STR_PASS = re.compile(r"(::as_str|::as_ref|::borrow|::deref|::as_mut_str|::to_owned|::to_string|::clone|::into|::from|::collect|::into_iter|::iter|::as_slice|::to_vec|::into_boxed_slice|::by_ref|::rev|::copied|::cloned)$")
+
+
+def index_site(ctx, s, seqp, cfg):
+    """K2 at one call of the index helper — a provenance fact about the sequence handed over: text of the data (the
+    String payload of a Value) reaches the helper only as its `chars()`; an array as its own payload; a sequence built
+    from characters alone indexes no string at all."""
+    sl = strip_refs(s.body.xtrace(s.term["args"][seqp - 1]))
+    raw, bytes_, via_chars, arrays = [], [], [], []
+
+    def scan(e, under, d=0):
+        if not isinstance(e, tuple) or d > 60:
+            return
+        if e[0] == "call" and e[1]:
+            p = e[1]["path"]
+            if p == "core::str::<impl str>::chars":
+                for a in e[2]:
+                    scan(a, "chars", d + 1)
+                return
+            if BYTE_OPS.search(p):
+                bytes_.append(p)
+                return
+            if under is None and not STR_PASS.search(p) and not e[1].get("local"):
+                for a in e[2]:
+                    scan(a, "opaque:" + p, d + 1)
+                return
+            for a in e[2]:
+                scan(a, under, d + 1)
+            return
+        if e[0] == "downcast" and e[2] == "String":
+            (via_chars if under == "chars" else raw).append(under)
+            return
+        if e[0] == "downcast" and e[2] == "Array":
+            arrays.append(e)
+            return
+        for x in e[1:]:
+            if isinstance(x, tuple):
+                scan(x, under, d + 1)
+            elif isinstance(x, list):
+                for y in x:
+                    scan(y, under, d + 1)
+    scan(sl, None)
+    ty = (callee_of(s.term).get("full") or "")
+    key = "(%s, %s)" % (s.where(), cfg)
+    if bytes_:
+        ctx.fail("K2.string-by-chars", "index site|bytes", "the sequence handed to the index helper is made with the byte-based %s: strings must be indexed by Unicode character" % bytes_[0], where=s.where(), fn=s.body.key)
+    elif via_chars and not raw:
+        ctx.ok("K2.string-by-chars", "string indexed through its chars() " + key, nontrivial=True)
+    elif raw:
+        ctx.unread("K2.string-by-chars", "index site " + key, "the string reaches the index helper as %s (not through chars(), not through a byte operation the rule knows)" % show_expr(sl)[:120], where=s.where(), fn=s.body.key)
+    elif arrays:
+        ctx.ok("K2.array-payload", "array indexed on its own payload " + key, nontrivial=True)
+    elif "char" in ty and not expr_mentions(sl, lambda x: x[0] == "call" and x[1] and not STR_PASS.search(x[1]["path"])):
+        ctx.ok("K2.string-by-chars", "a sequence built from characters is indexed, no string " + key, nontrivial=True)
+    else:
+        ctx.unread("K2.array-payload", "index site " + key, "the sequence handed to the index helper is %s — neither the characters of a string nor an array's payload" % show_expr(sl)[:120], where=s.where(), fn=s.body.key)
+
+
+ABS = re.compile(r"<impl i64>::(unsigned_abs|abs|wrapping_abs)$")
+NUM_PASS = re.compile(r"TryInto<.*>>::try_into$|TryFrom<.*>>::try_from$|Into<.*>>::into$|From<.*>>::from$|::unwrap$|::expect$|::unwrap_or_default$")
+SEQ_LEN = re.compile(r"^core::slice::<impl \[T\]>::len$|^std::vec::Vec::<T, A>::len$|ExactSizeIterator(>)?::len$|^std::iter::Iterator::count$")
+SLICE_GET = re.compile(r"^core::slice::<impl \[T\]>::get$|^std::vec::Vec::<T, A>::get$|Index<I>>::index$|Index<I> for \[T\]>::index$")
+
+
+def _num_peel(e):
+    x = strip_refs(e)
+    for _ in range(16):
+        y = payload_source(x)
+        if y is not x and y != x:
+            x = y
+            continue
+        if x[0] == "cast":
+            x = strip_refs(x[2])
+        elif x[0] == "call" and x[1] and NUM_PASS.search(x[1]["path"]) and x[2]:
+            x = strip_refs(x[2][0])
+        else:
+            break
+    return x
+
+
+def helper_table(ctx, facts, helper, seqp, idxp, cfg):
+    """K2 — the index helper as a decision table (rules/optnorm.py), whatever its spelling and its sequence type:
+           idx >= 0  →  the element |idx| from the front           (get(|idx|), nth(|idx|))
+           idx <  0  →  the element |idx| from the back, 1-based   (get(len − |idx|) with a checked subtraction,
+                                                                    nth_back(|idx| − 1), rev().nth(|idx| − 1))
+       or nothing.  A clamped subtraction, a length taken of something else, a sign test on another constant are read
+       and wrong; arithmetic the reader does not know is not read."""
+    from . import optnorm
+    SEQ, IDX = ("arg", seqp), ("arg", idxp)
+    hc = optnorm.decision_cases(facts, helper)
+    hkey = "index helper (%s)" % cfg
+    if hc is None:
+        ctx.unread("K2.helper-branches", hkey, "the index helper has loops or too many paths to summarise", where=helper.where(), fn=helper.key)
+        return
+    bad, forms, unread = [], set(), []
+    A = "(arg %d)" % idxp
+
+    def is_abs(e):
+        x = _num_peel(e)
+        return x[0] == "call" and x[1] is not None and ABS.search(x[1]["path"]) is not None and strip_refs(x[2][0]) == IDX
+
+    def is_len(e):
+        x = _num_peel(e)
+        return x[0] == "call" and x[1] is not None and SEQ_LEN.search(x[1]["path"]) is not None and _num_peel(x[2][0]) == SEQ
+
+    def minus(e):
+        """(kind, a, b) when e is a − b: kind = checked | clamped | plain."""
+        x = strip_refs(e)
+        if x[0] == "payload":
+            x = payload_source(x)
+        if x[0] == "field" and x[2] == 0 and x[1][0] == "binop" and str(x[1][1]).startswith("Sub"):
+            return ("plain", x[1][2], x[1][3])
+        if x[0] == "binop" and str(x[1]).startswith("Sub"):
+            return ("plain", x[2], x[3])
+        if x[0] == "call" and x[1]:
+            m = re.search(r"<impl (usize|u64|i64|isize)>::(checked_sub|saturating_sub|wrapping_sub)$", x[1]["path"])
+            if m:
+                return ("checked" if m.group(2) == "checked_sub" else "clamped", x[2][0], x[2][1])
+        return None
+
+    def position(v):
+        """front | back | a complaint (str) | None (not read)."""
+        x = strip_refs(v)
+        if x[0] == "agg" and x[1].get("variant") == "Some" and x[2]:
+            x = strip_refs(x[2][0])
+        if x[0] == "payload" or (x[0] == "field" and x[1][0] == "downcast"):
+            x = payload_source(x)
+        while x[0] == "call" and x[1] and re.search(r"Option::<.*>::(copied|cloned|as_ref)$", x[1]["path"]):
+            x = strip_refs(x[2][0])
+        if x[0] != "call" or not x[1]:
+            return None
+        p = x[1]["path"]
+        recv = strip_refs(x[2][0]) if x[2] else None
+        if SLICE_GET.search(p) and len(x[2]) == 2:
+            if _num_peel(recv) != SEQ:
+                return "reads %s, not the sequence it was given" % show_expr(recv)[:50]
+            e = x[2][1]
+            if is_abs(e):
+                return "front"
+            m = minus(e)
+            if m is None:
+                return None
+            kind, a, b_ = m
+            if not is_abs(b_):
+                return None
+            if not is_len(a):
+                la = _num_peel(a)
+                if la[0] == "call" and la[1] and re.search(r"::(len|count)$", la[1]["path"]):
+                    return "counts from the end with %s, which is not the length of the sequence it reads" % show_expr(la)[:70]
+                return None
+            if kind == "clamped":
+                return "a negative index reaching before the first element is clamped (%s) instead of being absent" % show_expr(strip_refs(e))[:60]
+            if kind == "plain":
+                return None
+            return "back"
+        m2 = re.search(r"(Iterator(>)?::)(nth|nth_back)$", p)
+        if m2 and len(x[2]) == 2:
+            if not expr_mentions(recv, lambda y: y == SEQ):
+                return "reads %s, not the sequence it was given" % show_expr(recv)[:50]
+            rev = expr_mentions(recv, lambda y: y[0] == "call" and y[1] is not None and y[1]["path"].endswith("::rev")) != (m2.group(3) == "nth_back")
+            if expr_mentions(recv, lambda y: y[0] == "call" and y[1] is not None and not re.search(r"::(rev|by_ref|into_iter|iter|copied|cloned)$", y[1]["path"])):
+                return None
+            e = x[2][1]
+            if not rev:
+                return "front" if is_abs(e) else None
+            m = minus(e)
+            if m and m[0] == "plain" and is_abs(m[1]) and strip_refs(m[2])[0] == "const" and const_value(strip_refs(m[2])[1]) == 1:
+                return "back"
+            if is_abs(e):
+                return "from the back it reads at |idx| (0-based): index -1 would be the last but one"
+            return None
+        return None
+    for conds, v, pth in hc:
+        sign = None
+        for k, val in conds.items():
+            if k[0] == "cmp" and k[1] == "Lt" and k[2] == A and k[3] == "c:0":
+                sign = "neg" if val else "nonneg"
+            elif k[0] == "cmp" and k[1] == "Lt" and k[2] == "c:-1" and k[3] == A:
+                sign = "nonneg" if val else "neg"         # -1 < idx
+            elif k[0] == "cmp" and A in (k[2], k[3]):
+                sign = "wrong:%s %s %s is %s" % (k[2], k[1], k[3], val)
+            elif k[0] == "pure" and "is_negative" in k[1] and A in k[1]:
+                sign = "neg" if val else "nonneg"
+            elif k[0] == "pure" and "is_positive" in k[1] and A in k[1]:
+                sign = "wrong:is_positive"
+        v = strip_refs(v)
+        if (v[0] == "call" and v[1] and "from_residual" in v[1]["path"]) or (v[0] == "agg" and v[1].get("variant") == "None"):
+            continue
+        pos = position(v)
+        if pos is None:
+            unread.append("under %s the helper answers %s" % (sign, show_expr(v)[:90]))
+        elif pos not in ("front", "back"):
+            bad.append("under %s: %s" % (sign, pos))
+        elif sign is not None and sign.startswith("wrong"):
+            bad.append("the sign of the index is tested as %s" % sign[6:])
+        elif sign is None:
+            bad.append("reads from the %s whatever the sign of the index" % pos)
+        elif (sign, pos) in (("nonneg", "front"), ("neg", "back")):
+            forms.add(sign)
+        else:
+            bad.append("under %s the sequence is read from the %s" % (sign, pos))
+    if bad:
+        ctx.fail("K2.helper-branches", hkey, "; ".join(bad[:3]), where=helper.where(), fn=helper.key)
+    elif unread:
+        ctx.unread("K2.helper-branches", hkey, "; ".join(unread[:2]), where=helper.where(), fn=helper.key)
+    else:
+        ctx.check(forms == {"nonneg", "neg"}, "K2.helper-branches", "idx >= 0 reads |idx| from the front, idx < 0 reads |idx| from the back — on every case of the helper (%s)" % cfg,
+                  "the helper has no case for %s indexes" % sorted({"nonneg", "neg"} - forms), where=helper.where(), fn=helper.key, nontrivial=True, sample={"cases": len(hc), "forms": sorted(forms)})
 
 
 def _abs_operand(body, e):
